@@ -39,7 +39,13 @@ META = {
                   'module is among the failing modules reported and the node does not start), attachments_accepted (every '
                   'module created, every given attachment good, no module attached to itself transitively => no module fails '
                   'to initialise, the node starts), init_fuel_suffices (the depth bound of the model of SecNode.get_module is '
-                  'never reached).  The hypotheses of '
+                  'never reached), main_unit_applied (for every unit oracle: the datatype every parameter of an accepted '
+                  'configuration shows - scalar, array, tuple / struct members, derived <p>_limits - is its datatype after its '
+                  'overrides with the unit of `value` AFTER the overrides of `value` put in for `$`; main_unit_only_units: that '
+                  'step changes nothing else), cfg_lookup_dir_major / earlier_dir_shadows / lookup_judged (to_config_path: a '
+                  'configuration name stands for the file of the FIRST configuration directory which has it under any of the '
+                  'suffixes _cfg.py, .py, none - in this order of preference within the directory -, a later directory is '
+                  'never preferred; load_config parses exactly these files in order or refuses).  The hypotheses of '
                   'the theorems (WellFormed class description, well-written Mod arguments) are checked by Lean on every case '
                   '(wellFormedB_sound, writtenOkB_sound).  The model is tied to frappy/modulebase.py, params.py, properties.py, '
                   'secnode.py, config.py by a correspondence run over generated (class, cfg) pairs through the real SecNode / '
@@ -47,7 +53,10 @@ META = {
                   'unchanged by a start), and the Lean monitors judge every observed record - for config files against the '
                   'configuration AS WRITTEN, for every module of every start (a clean node is started twice from the same '
                   'loaded configuration).  Configurations given as files are loaded and processed by the real Server '
-                  '(Server.__init__, Server._processCfg incl. its stderr report and sys.exit).',
+                  '(Server.__init__, Server._processCfg incl. its stderr report and sys.exit); most of them are started by '
+                  'NAME from 1-3 configuration directories, and a separate stream lets the real Server load names which exist '
+                  'in several directories / under several suffixes / not at all (confdir given through testinit, '
+                  'FRAPPY_CONFDIR or a [FRAPPY] section), judged by lookupB on the files parsed and on the content loaded.',
     'level_note': 'Trusted: Lean kernel + axioms propext/Classical.choice/Quot.sound; datatypes are oracles in the theorems '
                   '(laws assumed: none beyond totality; the driver instance for double/int/string/bool/enum/array/tuple on a '
                   'quarter grid is checked by the correspondence run only); the text of a config file is executed Python - '
@@ -63,7 +72,15 @@ META = {
     ],
     'modelled_not_verified': [
         'exec of the config file text (config.py:process_file); Mod/Param/Group calls are modelled, arbitrary Python in a file is not',
-        'Parameter.finish for `constant`, applyMainUnit ($ units), Command accessibles in the cfg, `datatype` given in the cfg',
+        'Parameter.finish for `constant`, `datatype` given in the cfg, that configured Command properties show in the description',
+        'the main-unit step is modelled as a pass over the accepted instance (the constructor runs it before the final '
+        'checks): assumes that replacing a unit does not change the outcome of checkProperties (proved for the driver instance: '
+        'checkDT_setMainUnit); datatype.unit / set_main_unit are oracles, the driver instance (FloatRange unit, ArrayOf.unit, '
+        'recursion into array and tuple members) is checked by the correspondence run only',
+        'StructOf parameters are observed as the tuple of their members in the order of the sorted member names (values, '
+        'datainfo, class description): optional members and arrays of structs are not generated',
+        'the file system is an oracle (isFile) - the harness tells Lean which files it wrote; GeneralConfig.init (where confdir '
+        'comes from) is exercised, not modelled',
         'mandatory properties of Parameter objects (description/datatype): always present in generated classes',
         'Server.__init__ / Server._processCfg (load_config, SecNode + Dispatcher, create_modules, the report on stderr, '
         'sys.exit(1)) are not modelled line by line: every configuration given as files is processed by the real Server '
@@ -77,6 +94,10 @@ META = {
     'assumptions': ['configuration dicts have unique keys (Python dict)',
                     'base parameters of Limit parameters precede them and have a datatype',
                     'a start only reads the loaded configuration (checked by observation on every case)',
+                    'the parameter called `value`, if a class has one, has a datatype (valueTypedB, checked on every case); the main '
+                    'unit does not itself contain `$` (never generated: it would be substituted into itself)',
+                    'reading of the statement for cfg names: the configuration directories are a path list - an earlier directory '
+                    'shadows later ones (the rule is read off to_config_path; it is documented nowhere else)',
                     'module names of a node are distinct (a dict); the empty string as value of an Attached property means '
                     '"not attached" (docstring of Attached), also for a mandatory one'],
 }
@@ -108,6 +129,9 @@ def canon(v):
         return {'s': v}
     if isinstance(v, (list, tuple)):
         return {'l': [canon(x) for x in v]}
+    if isinstance(v, dict):
+        # a struct value is observed as the tuple of its members in the order of the (sorted) member names - see lean_dt
+        return {'l': [canon(v[k]) for k in sorted(v)]}
     return {'x': type(v).__name__}
 
 
@@ -138,7 +162,25 @@ def build_dt(c):
         return ArrayOf(build_dt(c['members']), c['minlen'], c['maxlen'])
     if t == 'tuple':
         return TupleOf(*[build_dt(m) for m in c['members']])
+    if t == 'struct':
+        from frappy.datatypes import StructOf
+        return StructOf(**{n: build_dt(m) for n, m in zip(c['names'], c['members'])})
     raise ValueError(t)
+
+
+def lean_dt(c):
+    """the datatype as sent to Lean: StructOf(a=…, b=…) is observed as the tuple of its members in the order of the sorted
+    names (values: `canon`; datainfo: `datainfo_to_cdt`) - conversion, limits, units and the recursion of set_main_unit
+    are member-wise in both; a missing or extra key is a tuple of the wrong length"""
+    if c is None:
+        return None
+    if c['t'] == 'struct':
+        return {'t': 'tuple', 'members': [lean_dt(m) for m in c['members']]}
+    if c['t'] == 'tuple':
+        return {'t': 'tuple', 'members': [lean_dt(m) for m in c['members']]}
+    if c['t'] == 'array':
+        return dict(c, members=lean_dt(c['members']))
+    return c
 
 
 def datainfo_to_cdt(d):
@@ -166,6 +208,9 @@ def datainfo_to_cdt(d):
     if t == 'tuple':
         ms = [datainfo_to_cdt(m) for m in d['members']]
         return None if None in ms else {'t': 'tuple', 'members': ms}
+    if t == 'struct' and not d.get('optional'):
+        ms = [datainfo_to_cdt(d['members'][k]) for k in sorted(d['members'])]
+        return None if None in ms else {'t': 'tuple', 'members': ms}
     return None
 
 
@@ -173,15 +218,37 @@ def datainfo_to_cdt(d):
 # classes
 # ----------------------------------------------------------------------------------------
 UNITS = ['', 'K', 'mbar', 'T']
+REF_UNITS = ['$', '$/s', '%/$', '$$']          # units referring to the unit of the main value
 KINDS = ['KA', 'KB']
+
+
+def gen_unit(rng):
+    return rng.choice(REF_UNITS) if rng.random() < 0.3 else rng.choice(UNITS)
+
+
+def gen_tuple(rng):
+    """TupleOf(...) of 2-3 numeric members (a window: tolerance and time; a table row): no unit of its own, the units -
+    also references to the main unit - sit in the members"""
+    ms = []
+    for _ in range(rng.choice([2, 2, 3])):
+        m = gen_dt(rng, False)
+        while m['t'] not in ('double', 'int'):
+            m = gen_dt(rng, False)
+        ms.append(m)
+    return {'t': 'tuple', 'members': ms}
 
 
 def gen_dt(rng, allow_array=True):
     r = rng.random()
+    if allow_array and r < 0.08:
+        c = gen_tuple(rng)
+        if rng.random() < 0.4:                     # StructOf: control parameters (p, i, d, tau)
+            c = {'t': 'struct', 'names': sorted(rng.sample(['d', 'i', 'p', 'tau'], len(c['members']))), 'members': c['members']}
+        return c
     if r < 0.35:
         lo = rng.choice([-40, -8, 0, 0, 4, 10])
         hi = lo + rng.choice([0, 4, 16, 40, 400])
-        return {'t': 'double', 'min': lo, 'max': hi, 'unit': rng.choice(UNITS)}
+        return {'t': 'double', 'min': lo, 'max': hi, 'unit': gen_unit(rng)}
     if r < 0.55:
         lo = rng.choice([-10, 0, 0, 1, 5])
         return {'t': 'int', 'min': lo, 'max': lo + rng.choice([0, 1, 5, 100])}
@@ -195,9 +262,12 @@ def gen_dt(rng, allow_array=True):
         vals = rng.sample(range(0, 8), len(names))
         return {'t': 'enum', 'members': sorted([[n, v] for n, v in zip(names, vals)], key=lambda m: m[1])}
     lo = rng.choice([0, 0, 1, 2])
-    m = gen_dt(rng, False)
-    while m['t'] not in ('double', 'int'):
+    if rng.random() < 0.25:
+        m = gen_tuple(rng)                     # a table: ArrayOf(TupleOf(...))
+    else:
         m = gen_dt(rng, False)
+        while m['t'] not in ('double', 'int'):
+            m = gen_dt(rng, False)
     return {'t': 'array', 'minlen': lo, 'maxlen': lo + rng.choice([0, 1, 3]), 'members': m}
 
 
@@ -238,6 +308,10 @@ def valid_value(rng, c, where='any'):
     if t == 'array':
         n = rng.randint(c['minlen'], c['maxlen'])
         return [valid_value(rng, c['members'], where) for _ in range(n)]
+    if t == 'tuple':
+        return [valid_value(rng, m, where) for m in c['members']]
+    if t == 'struct':
+        return {n: valid_value(rng, m, where) for n, m in zip(c['names'], c['members'])}
     raise ValueError(t)
 
 
@@ -262,6 +336,12 @@ def bad_value(rng, c):
     if t == 'array':
         cands = [5, None, [valid_value(rng, c['members'], 'inside')] * (c['maxlen'] + 1), ['x'] * max(1, c['minlen'])]
         return rng.choice(cands)
+    if t == 'tuple':
+        ok = [valid_value(rng, m, 'inside') for m in c['members']]
+        return rng.choice([5, None, ok[:-1], ok + [1], ['x'] * len(ok)])
+    if t == 'struct':
+        ok = {n: valid_value(rng, m, 'inside') for n, m in zip(c['names'], c['members'])}
+        return rng.choice([5, None, {n: ok[n] for n in c['names'][1:]}, dict(ok, zz=1), {n: 'x' for n in ok}])
     raise ValueError(t)
 
 
@@ -269,18 +349,35 @@ def gen_class(rng, idx):
     """class spec (JSON-able)"""
     params = []
     names = ['pa', 'pb', 'pc', 'pd', 'pe']
-    if rng.random() < 0.25:
-        names[0] = 'value'                     # a predefined name: exported without underscore
+    if rng.random() < 0.45:
+        names[0] = 'value'                     # a predefined name: exported without underscore; its unit is the main unit
     for name in names[:rng.randint(1, 5)]:
         c = gen_dt(rng)
+        if name == 'value' and rng.random() < 0.8:
+            while c['t'] != 'double' and not (c['t'] == 'array' and c['members']['t'] == 'double'):
+                c = gen_dt(rng)
+            (c if c['t'] == 'double' else c['members'])['unit'] = rng.choice(UNITS[1:] + UNITS[1:] + [''])
+        if name == 'value':
+            # the main value does not refer to itself: a main unit containing `$` is never generated (observation in the
+            # design notes: it would be substituted into itself, twice where a datatype object is shared)
+            def plain(d):
+                if d['t'] == 'double' and '$' in d['unit']:
+                    d['unit'] = rng.choice(UNITS)
+                for m in ([d['members']] if d['t'] == 'array' else d['members'] if d['t'] == 'tuple' else []):
+                    plain(m)
+            plain(c)
         needscfg = rng.random() < 0.2
-        has_default = (not needscfg) and rng.random() < 0.8
+        # a required value (needscfg) is required whether or not the parameter has a default: a default is not a
+        # configured value (it is never written to the hardware)
+        has_default = rng.random() < (0.5 if needscfg else 0.8)
         p = {'name': name, 'dt': c, 'limit': None, 'base': '', 'needscfg': needscfg,
              'write': rng.random() < 0.5, 'read': rng.random() < 0.3, 'readonly': rng.random() < 0.4,
              'default': wrap(valid_value(rng, c, 'inside')) if has_default else None,
              'pyvalue_default': None, 'value': None, 'export': True}
         if has_default:
             p['pyvalue_default'] = p['default']['v']
+        if needscfg and rng.random() < 0.4:
+            p['inherit'] = True
         if (not needscfg) and rng.random() < 0.12:
             v = valid_value(rng, c, 'inside')
             p['value'] = wrap(v)                # class-level value: written at start-up even without cfg
@@ -358,6 +455,13 @@ def pyval(cv):
     raise ValueError(cv)
 
 
+def pyval_dt(c, cv):
+    """class-level default / value of a parameter with datatype c"""
+    if c is not None and c['t'] == 'struct' and isinstance(cv, dict) and 'l' in cv:
+        return {n: pyval(x) for n, x in zip(c['names'], cv['l'])}
+    return pyval(cv)
+
+
 def build_class(spec):
     from frappy.modules import Module
     from frappy.params import Parameter, Command, Limit
@@ -375,13 +479,22 @@ def build_class(spec):
         elif not o['impl']:
             p = o['decl']
             basens[p['name']] = Parameter(f'param {p["name"]}', build_dt(p['dt']), readonly=p['readonly'],
-                                          default=pyval(p['default']['v']), optional=True)
+                                          default=pyval_dt(p['dt'], p['default']['v']), optional=True)
     for p in spec['params']:
         name = p['name']
         if p.get('opt'):
-            kw = {'readonly': p['readonly'], 'needscfg': p['needscfg'], 'default': pyval(p['default']['v'])}
+            kw = {'readonly': p['readonly'], 'needscfg': p['needscfg'], 'default': pyval_dt(p['dt'], p['default']['v'])}
             basens[name] = Parameter(f'param {name}', build_dt(p['dt']), optional=True, **kw)
             ns[name] = Parameter()          # implemented here: properties are inherited
+        elif p.get('inherit'):
+            # declared in a base class (datatype, default); this class only says that the value MUST be configured
+            kw = {'readonly': p['readonly']}
+            if p['default'] is not None:
+                kw['default'] = pyval_dt(p['dt'], p['default']['v'])
+            if p['export'] is not True:
+                kw['export'] = p['export']
+            basens[name] = Parameter(f'param {name}', build_dt(p['dt']), **kw)
+            ns[name] = Parameter(needscfg=True)
         elif p['limit']:
             kw = {}
             if p['export'] is not True:
@@ -390,9 +503,9 @@ def build_class(spec):
         else:
             kw = {'readonly': p['readonly'], 'needscfg': p['needscfg']}
             if p['default'] is not None:
-                kw['default'] = pyval(p['default']['v'])
+                kw['default'] = pyval_dt(p['dt'], p['default']['v'])
             if p['value'] is not None:
-                kw['value'] = pyval(p['value']['v'])
+                kw['value'] = pyval_dt(p['dt'], p['value']['v'])
             if p['export'] is not True:
                 kw['export'] = p['export']
             ns[name] = Parameter(f'param {name}', build_dt(p['dt']), **kw)
@@ -536,9 +649,9 @@ def class_desc(spec, cls):
             p = byname[aname]
             own = [['readonly', bool(aobj.readonly)], ['visibility', {'n': 4 * int(aobj.visibility)}],
                    ['export', canon(aobj.export)]]
-            params.append({'name': aname, 'dt': p['dt'], 'limit': p['limit'], 'base': p['base'],
+            params.append({'name': aname, 'dt': lean_dt(p['dt']), 'limit': p['limit'], 'base': p['base'],
                            'value': wrap(aobj.value, aobj.value is not None),          # as stored on the class (converted)
-                           'default': wrap(aobj.default, aobj.default is not None), 'needscfg': p['needscfg'],
+                           'default': wrap(aobj.default, aobj.default is not None), 'needscfg': bool(aobj.needscfg),
                            'write': ('write_' + aname) in cls.wrappedAttributes, 'own': own,
                            'consumes': consumes.get(aname, [])})
         else:
@@ -585,7 +698,7 @@ def gen_param_cfg(rng, p, force_value=False):
                 if nlo <= hi:
                     items.append(('min', nlo / 4 if t == 'double' else nlo))
         if t == 'double' and rng.random() < 0.3:
-            items.append(('unit', rng.choice(['mK', 'V', 'bar'])))
+            items.append(('unit', rng.choice(['mK', 'V', 'bar'] if p['name'] == 'value' else ['mK', 'V', 'bar', 'V', 'bar', '$', '$/min'])))
         if t == 'string' and rng.random() < 0.3:
             items.append(('maxchars', max(c['minchars'], c['maxchars'] + rng.choice([-2, -1, 0, 1, 5]))))
         if t == 'array' and rng.random() < 0.3:
@@ -691,6 +804,12 @@ def inject(rng, spec, cfg, kind):
         ent = cfg.get(q['name'])
         if ent and ent[0] == 'dict':
             its = [kv for kv in ent[1] if kv[0] != 'value']
+            if rng.random() < 0.3 and not any(kv[0] == 'default' for kv in its):
+                # "only a default given": a default is not the required value
+                try:
+                    its.append(('default', valid_value(rng, final_dt_guess(q['dt'], its), 'inside')))
+                except ValueError:
+                    pass                        # limits already inverted by another injected error: no value fits
             if its:
                 cfg[q['name']] = ('dict', its)
             else:
@@ -699,7 +818,8 @@ def inject(rng, spec, cfg, kind):
     if kind == 'unknown_param_prop':
         foreign = {'double': ['maxchars', 'minlen', 'nosuch'], 'int': ['unit', 'maxchars', 'nosuch'],
                    'string': ['min', 'unit', 'nosuch'], 'bool': ['min', 'nosuch'], 'enum': ['max', 'nosuch'],
-                   'array': ['maxchars', 'nosuch'] + (['unit'] if c['t'] == 'array' and c['members']['t'] == 'int' else [])}[c['t']]
+                   'tuple': ['unit', 'min', 'maxlen', 'nosuch'], 'struct': ['unit', 'max', 'nosuch'],
+                   'array': ['maxchars', 'nosuch'] + (['unit'] if c['t'] == 'array' and c['members']['t'] in ('int', 'tuple') else [])}[c['t']]
         items.insert(rng.randint(0, len(items)), (rng.choice(foreign), rng.choice([1, 'x'])))
     elif kind == 'bad_param_prop':
         cands = [('readonly', 'maybe'), ('readonly', 2), ('visibility', 'nonsense'), ('visibility', 9), ('export', 5),
@@ -731,6 +851,8 @@ def inject(rng, spec, cfg, kind):
             items += rng.choice([[('min', c['max'] + 1)], [('max', c['min'] - 1)], [('min', 4), ('max', 3)]])
         elif t == 'string':
             items += rng.choice([[('minchars', c['maxchars'] + 1)], [('minchars', 5), ('maxchars', 4)]])
+        elif t == 'array' and c['members']['t'] == 'tuple':
+            items += rng.choice([[('minlen', c['maxlen'] + 1)], [('minlen', 3), ('maxlen', 2)]])
         elif t == 'array':
             m = c['members']
             items += rng.choice([[('minlen', c['maxlen'] + 1)], [('min', m['max'] + 1 if m['t'] == 'int' else (m['max'] + 4) / 4)],
@@ -1244,25 +1366,158 @@ def compare_node(model, nodeobs):
 _srv_counter = iter(range(1, 1 << 30))
 
 
-def make_server(paths, base):
-    """the REAL `Server` object for a list of config files (`Server.__init__`: `load_config`, node section, interface)"""
+def make_server(paths, base, confdir=None, parsed=None, via=None):
+    """the REAL `Server` object for a list of config files or config names (`Server.__init__`: `load_config` with
+    `to_config_path`, node section, interface).  confdir: the configuration directories, in order; parsed: a list which
+    gets the path of every file `process_file` is called for (recording only)"""
     import signal
     import mlzlog
     from pathlib import Path
+    import frappy.config
     from frappy.lib import generalConfig
     from frappy.server import Server
     from vlib.node import patch_version
     patch_version()
-    generalConfig.testinit(piddir=Path(base))
+    if confdir is None:
+        generalConfig.testinit(piddir=Path(base))
+    elif via == 'env':
+        # as the operator gives it: FRAPPY_CONFDIR=<dir>:<dir>:… (frappy/lib/__init__.py: GeneralConfig.init)
+        keys = ('FRAPPY_CONFDIR', 'FRAPPY_PIDDIR', 'FRAPPY_LOGDIR', 'FRAPPY_CONFIG_FILE')
+        saved = {k: os.environ.get(k) for k in keys}
+        os.environ.update(FRAPPY_CONFDIR=':'.join(str(d) for d in confdir), FRAPPY_PIDDIR=str(base), FRAPPY_LOGDIR=str(base))
+        os.environ.pop('FRAPPY_CONFIG_FILE', None)
+        try:
+            generalConfig.init()
+        finally:
+            for k, v in saved.items():
+                if v is None:
+                    os.environ.pop(k, None)
+                else:
+                    os.environ[k] = v
+    elif via == 'cfgfile':
+        # the [FRAPPY] section of a general configuration file: confdir = <dir>:<dir>:…
+        gc = os.path.join(base, 'generalConfig.cfg')
+        with open(gc, 'w', encoding='utf-8') as fh:
+            fh.write('[FRAPPY]\nlogdir = %s\npiddir = %s\nconfdir = %s\n' % (base, base, ':'.join(str(d) for d in confdir)))
+        saved = {k: os.environ.pop(k, None) for k in ('FRAPPY_CONFDIR', 'FRAPPY_PIDDIR', 'FRAPPY_LOGDIR')}
+        try:
+            generalConfig.init(gc)
+        finally:
+            os.environ.update({k: v for k, v in saved.items() if v is not None})
+    else:
+        generalConfig.testinit(piddir=Path(base), confdir=[Path(d) for d in confdir])
     old = {sig: signal.getsignal(sig) for sig in (signal.SIGINT, signal.SIGTERM)}     # Server installs its own handlers
+    real_process_file = frappy.config.process_file
+
+    def recording(filename, log):
+        if parsed is not None:
+            parsed.append(str(filename))
+        return real_process_file(filename, log)
+    frappy.config.process_file = recording
     logging.disable(logging.CRITICAL)
     try:
         return Server('verifc10', mlzlog.MLZLogger('fvs%d' % next(_srv_counter)), cfgfiles=list(paths),
                       interface='tcp://5000', testonly=True)
     finally:
+        frappy.config.process_file = real_process_file
         logging.disable(logging.NOTSET)
         for sig, h in old.items():
             signal.signal(sig, h)
+
+
+SUFFIXES = ['_cfg.py', '.py', '']
+
+
+def split_path(path, base, ndirs):
+    """path of a parsed file -> [directory label, file name] as sent to Lean ('' + full path for a file outside the
+    configuration directories)"""
+    path = str(path)
+    for d in range(ndirs):
+        pre = os.path.join(base, f'd{d}') + os.sep
+        if path.startswith(pre) and os.sep not in path[len(pre):]:
+            return [f'd{d}', path[len(pre):]]
+    return ['', path[len(base) + 1:] if path.startswith(base + os.sep) else path]
+
+
+def lookup_requests(lk):
+    q = {'files': lk['files'], 'dirs': lk['dirs'], 'refs': lk['refs']}
+    return [dict(q, p='C10', k='lookup'), dict(q, p='C10', k='judge_lookup', loaded=lk['loaded'])]
+
+
+def gen_lookup_case(rng):
+    """which file is applied: 1-3 configuration directories, 1-2 configuration names, each present in any subset of
+    (directory, suffix) places - also in none -, sometimes a file given by its path"""
+    ndirs = rng.choice([1, 2, 2, 3, 3])
+    names = rng.sample(['cryo', 'x', 'stick_a'], rng.choice([1, 1, 2]))
+    places = []
+    for n in names:
+        slots = [(d, sfx) for d in range(ndirs) for sfx in SUFFIXES]
+        k = rng.choice([0, 1, 1, 2, 2, 2, 3, 4, len(slots)])
+        for d, sfx in rng.sample(slots, min(k, len(slots))):
+            places.append([d, n + sfx])
+    refs = [{'name': n} for n in names]
+    if rng.random() < 0.2:
+        refs.insert(rng.randint(0, len(refs)), {'path': rng.choice(['sub/other_cfg.py', 'sub/plain'])})
+        if rng.random() < 0.8:
+            places.append([None, refs[[i for i, r in enumerate(refs) if 'path' in r][0]]['path']])
+    order = list(range(ndirs))
+    rng.shuffle(order)                              # the order of confdir is not the order of creation / of the names
+    return {'ndirs': ndirs, 'order': order, 'places': places, 'refs': refs, 'via': rng.choice(['testinit', 'env', 'cfgfile'])}
+
+
+def run_lookup_case(lc):
+    """write the files, let the REAL Server load the references (Server.__init__ -> load_config -> to_config_path /
+    process_file) -> what exists, what was asked for, which files were parsed, and which file's CONTENT is in the loaded
+    configuration (every file defines its own equipment id and a module named after the reference, described by its place)"""
+    from frappy.errors import ConfigError
+    base = tempfile.mkdtemp(prefix='verif-c10-lk-')
+    try:
+        os.mkdir(os.path.join(base, 'sub'))
+        for d in range(lc['ndirs']):
+            os.mkdir(os.path.join(base, f'd{d}'))
+        files = []
+        for d, fn in lc['places']:
+            path = os.path.join(base, fn) if d is None else os.path.join(base, f'd{d}', fn)
+            label = ['', fn] if d is None else [f'd{d}', fn]
+            files.append(label)
+            stem = os.path.basename(fn)
+            for sfx in ('_cfg.py', '.py'):
+                if stem.endswith(sfx):
+                    stem = stem[:-len(sfx)]
+                    break
+            with open(path, 'w', encoding='utf-8') as fh:
+                fh.write(f"Node({'|'.join(label)!r}, 'file', interface='tcp://5000')\n"
+                         f"Mod({'mod_' + stem!r}, 'frappy.modules.Module', {'|'.join(label)!r})\n")
+        dirs = [f'd{d}' for d in lc['order']]
+        refs = [dict(r) for r in lc['refs']]
+        args = [os.path.join(base, r['path']) if 'path' in r else r['name'] for r in refs]
+        parsed = []
+        try:
+            srv = make_server(args, base, confdir=[os.path.join(base, d) for d in dirs], parsed=parsed, via=lc.get('via'))
+            loaded = [split_path(p, base, lc['ndirs']) for p in parsed]
+            cfg = srv.module_cfg
+            content = []
+            for i, r in enumerate(refs):
+                stem = os.path.basename(r['path']) if 'path' in r else r['name']
+                for sfx in ('_cfg.py', '.py'):
+                    if stem.endswith(sfx):
+                        stem = stem[:-len(sfx)]
+                        break
+                mod = cfg.get('mod_' + stem)
+                desc = mod.get('description') if mod else None
+                if isinstance(desc, dict):
+                    desc = desc.get('value')
+                content.append(str(desc).split('|', 1) if desc else ['?', '?'])
+            first = str(srv.node_cfg.get('equipment_id')).split('|', 1)
+        except ConfigError:
+            loaded, content, first = None, None, None
+        finally:
+            ld = logging.Logger.manager.loggerDict
+            for k in [k for k in ld if k.startswith('fv')]:
+                del ld[k]
+        return {'files': files, 'dirs': dirs, 'refs': refs, 'loaded': loaded, 'content': content, 'first': first}
+    finally:
+        shutil.rmtree(base, ignore_errors=True)
 
 
 def server_node(srv):
@@ -1352,6 +1607,12 @@ def gen_case(rng, idx):
                 extra.append({'name': mo['name'], 'cls': spec['id'], 'entries': entries, 'kinds': kinds, 'file': f})
     assign_attachments(rng, specs, mods + extra, 0.85 if clean else 0.55)
     case = {'specs': specs, 'path': path, 'nfiles': nfiles, 'mods': mods + extra}
+    if path == 'dsl' and rng.random() < 0.7:
+        # the files live in 1-3 configuration directories under any of the three suffixes and the node is started with
+        # their NAMES (frappy-server f0,f1): to_config_path finds them; else: full paths
+        nd = rng.choice([1, 2, 3])
+        case['layout'] = {'ndirs': nd, 'files': [{'dir': rng.randrange(nd), 'suffix': rng.choice(SUFFIXES),
+                                                  'by': 'name' if rng.random() < 0.85 else 'path'} for _ in range(nfiles)]}
     if path == 'dsl':
         for mo in case['mods']:
             mo['desc'], mo['dsl'] = dsl_forms(rng, mo['entries'])
@@ -1418,7 +1679,12 @@ def effective_cfgs(case, classes, res=None):
             text += dsl_preamble([mo for _, mo in per_file[f]])
             for i, mo in per_file[f]:
                 text += dsl_mod_text(mo['name'], mo['cls'], mo['desc'], mo['dsl'], f'{f}.{i}')
-            p = os.path.join(base, f'f{f}_cfg.py')
+            lay = case.get('layout')
+            if lay:
+                os.makedirs(os.path.join(base, f'd{lay["files"][f]["dir"]}'), exist_ok=True)
+                p = os.path.join(base, f'd{lay["files"][f]["dir"]}', f'f{f}' + lay['files'][f]['suffix'])
+            else:
+                p = os.path.join(base, f'f{f}_cfg.py')
             with open(p, 'w', encoding='utf-8') as fh:
                 fh.write(text)
             paths.append(p)
@@ -1437,12 +1703,26 @@ def effective_cfgs(case, classes, res=None):
             logging.disable(logging.NOTSET)
         # the node is built by the real Server from these files (`Server.__init__` calls `load_config`): its module_cfg IS
         # the loaded, merged configuration
-        srv = make_server(paths, base)
+        lay, lookup = case.get('layout'), None
+        if lay:
+            for d in range(lay['ndirs']):
+                os.makedirs(os.path.join(base, f'd{d}'), exist_ok=True)
+            parsed = []
+            args = [f'f{f}' if lay['files'][f]['by'] == 'name' else paths[f] for f in range(case['nfiles'])]
+            srv = make_server(args, base, confdir=[os.path.join(base, f'd{d}') for d in range(lay['ndirs'])], parsed=parsed)
+            lookup = {'files': [split_path(p, base, lay['ndirs']) for p in paths], 'dirs': [f'd{d}' for d in range(lay['ndirs'])],
+                      'refs': [{'name': a} if os.sep not in a else {'path': split_path(a, base, 0)[1]} for a in args],
+                      'loaded': [split_path(p, base, lay['ndirs']) for p in parsed]}
+            lookup['files'] = [f if lay['files'][i]['by'] == 'name' else ['', split_path(paths[i], base, 0)[1]]
+                               for i, f in enumerate(lookup['files'])]
+            lookup['loaded'] = [f if f in lookup['files'] else ['', os.path.join(*f)] for f in lookup['loaded']]
+        else:
+            srv = make_server(paths, base)
         config = srv.module_cfg
         merged = {'modules': [[k, tag_of(v), origin_of(v)] for k, v in config.items() if k != 'node'],
                   'ambiguous': sorted(getattr(config, 'ambiguous', ['(the merged configuration has no attribute ambiguous)']))}
         return {k: v for k, v in config.items() if k != 'node'}, {
-            'files_obs': files_obs, 'files_raw': raw_lists, 'merged': merged, 'texts': texts, 'server': srv}
+            'files_obs': files_obs, 'files_raw': raw_lists, 'merged': merged, 'texts': texts, 'server': srv, 'lookup': lookup}
     finally:
         shutil.rmtree(base, ignore_errors=True)
 
@@ -1559,6 +1839,11 @@ def compare_module(model, obs, cmds=()):
     return diffs
 
 
+def unresolved_units(obs):
+    """described parameters whose datainfo still shows a `$` somewhere (for the report line only)"""
+    return [[p['name'], p['datainfo']] for p in obs['params'] if p['described'] is not None and '$' in json.dumps(p['datainfo'])]
+
+
 def violation_sig(judge, obs, mo):
     """short stable signature of what fails (Python only names it; the verdict is Lean's)"""
     if not judge['whole']:
@@ -1568,6 +1853,8 @@ def violation_sig(judge, obs, mo):
     if not judge['modprops']:
         return 'C10:module-property-not-applied'
     if not judge['applied']:
+        if judge.get('mainunit') and unresolved_units(obs):
+            return 'C10:main-unit-not-applied'
         bad = [p['name'] for p in obs['params'] if p['described'] is not None and p['reach'] != [p['described']]]
         bad += [p['name'] for p in obs['params'] if p['described'] is None and p['reach']]
         if bad:
@@ -1807,12 +2094,68 @@ def case_text(case):
     return ' | '.join(t.replace('\n', '; ') for t in out)[:500]
 
 
+def lookup_views(lk):
+    """the two observations of one start judged by `lookupB`: the files parsed (recorded at process_file) and the files
+    whose CONTENT is in the configuration the Server holds (first file: equipment id; every reference: its module)"""
+    views = [('parsed', lk['loaded'])]
+    if lk['loaded'] is not None:
+        views.append(('content', lk['content']))
+        views.append(('node-section', [lk['first']] + lk['content'][1:]))
+    return views
+
+
+def lookup_stream(ctx, res):
+    """which configuration file is applied (config.py: to_config_path / load_config through the real Server.__init__)"""
+    n = ctx.budget(150, 3000) * (3 if ctx.escalated else 1)
+    cases = [gen_lookup_case(ctx.rng) for _ in range(n)]
+    outs = [run_lookup_case(lc) for lc in cases]
+    reqs = []
+    for lk in outs:
+        lk['pos'] = len(reqs)
+        reqs.append(lookup_requests(lk)[0])
+        for _, loaded in lookup_views(lk):
+            reqs.append(lookup_requests(dict(lk, loaded=loaded))[1])
+    ans = ctx.driver.batch(reqs)
+    for x in ans:
+        if 'driver_error' in x:
+            raise RuntimeError(f'driver error: {x}')
+    for lc, lk in zip(cases, outs):
+        res.evaluations += 1
+        res.traces += 1
+        res.count('lookup.dirs=%d' % lc['ndirs'])
+        res.count('lookup.confdir-given-by=' + lc.get('via', 'testinit'))
+        res.count('lookup.files-of-a-name=%d' % min(4, max([0] + [sum(1 for d, fn in lc['places'] if d is not None and fn in
+                                                                    [r['name'] + x for x in SUFFIXES]) for r in lc['refs'] if 'name' in r])))
+        res.count('lookup.outcome=' + ('not-found' if lk['loaded'] is None else 'loaded'))
+        if lk['loaded'] is not None:
+            for (d, fn), r in zip(lk['loaded'], lk['refs']):
+                res.count('lookup.found-in=' + ('path' if 'path' in r else 'dir%d' % lk['dirs'].index(d) if d in lk['dirs'] else '?'))
+                if 'name' in r:
+                    res.count('lookup.suffix=' + repr(fn[len(r['name']):]))
+            if len({fn for d, fn in lc['places'] if d is not None}) > 1 or len(lc['places']) > 1:
+                res.nontriv({'lookup': lc})
+        model = ans[lk['pos']]
+        if ctx.model_ok and model['loaded'] != lk['loaded']:
+            res.disagreements.append({'case': {'kind': 'lookup', 'case': lc}, 'model': model['loaded'], 'impl': lk['loaded']})
+        for i, (view, loaded) in enumerate(lookup_views(lk)):
+            judge = ans[lk['pos'] + 1 + i]
+            if not judge['ok']:
+                sig = 'C10:cfg-lookup:wrong-file-applied' if loaded is not None else 'C10:cfg-lookup:existing-file-not-found'
+                res.count('violation.' + sig)
+                res.violations.append({'sig': sig,
+                                       'what': f'{sig}: configuration directories {lk["dirs"]} (in this order) contain {lk["files"]}; '
+                                               f'started with {lk["refs"]} -> {view}: {loaded}; the files these references '
+                                               f'stand for: {judge["expected"]}',
+                                       'case': {'kind': 'lookup', 'case': lc}})
+                break
+
+
 def run(ctx):
     res = Result()
     res.rule = ('a case = one node: 1-4 modules of generated classes (1-5 parameters of double/int/string/bool/enum/array '
-                'datatypes, with/without write_/read_ methods, groups of 2-3 parameters sharing a rwhandler.CommonWriteHandler / '
+                'datatypes - also TupleOf / StructOf / ArrayOf(TupleOf), units referring to the main unit by `$` -, with/without write_/read_ methods, groups of 2-3 parameters sharing a rwhandler.CommonWriteHandler / '
                 'WriteHandler / a hand-written write_<p> popping its siblings from writeDict (started through the real '
-                'startModule + poll thread), needscfg, class-level values, Limit parameters, optional accessibles declared in a '
+                'startModule + poll thread), needscfg (with or without a default, declared here or only added to an inherited parameter), class-level values, Limit parameters, optional accessibles declared in a '
                 'base class and implemented or not, mandatory and optional module properties), cfg through raw dicts or '
                 'through 1-3 merged config files written with the DSL (Mod / Param(v, k=..) / bare value / Group / one Param '
                 'object bound to a variable and used by several modules), any subset configured, values inside/at/outside '
@@ -1823,7 +2166,9 @@ def run(ctx):
                 'string / nothing, also towards modules whose own configuration is erroneous; 30 % of the nodes have no '
                 'injected error; a node without configuration error is started a second time from the same '
                 'loaded configuration; the real Server._processCfg runs in a subprocess on four configurations (good, two '
-                'failing modules, optional attached modules good / typo + wrong kind); non-trivial = a module that is '
+                'failing modules, optional attached modules good / typo + wrong kind); config files live in 1-3 configuration '
+                'directories under any suffix and are given by name or path; lookup stream: 1-2 names present in any subset of '
+                '(directory, suffix) places of 1-3 directories in shuffled order; non-trivial = a module that is '
                 'registered with at least one configured parameter entry, or rejected with an injected error')
     rng = ctx.rng
     n = ctx.budget(1000, 20000)
@@ -1863,6 +2208,8 @@ def run(ctx):
                 mpos = len(reqs)
                 reqs.append({'p': 'C10', 'k': 'merge', 'files': out['merge']['files_raw']})
                 reqs.append({'p': 'C10', 'k': 'judge_merge', 'files': out['merge']['files_obs'], 'merged': out['merge']['merged']})
+                if out['merge'].get('lookup'):
+                    reqs += lookup_requests(out['merge']['lookup'])
             yield origin, case, out, reqs, mpos
 
     def answered(chunk=40):
@@ -1906,6 +2253,20 @@ def run(ctx):
                                         'param' if a['param']['value'] is not None else 'param-novalue'))
             if mo['gen'] == 2:
                 res.count('module.second-start')
+            res.count('module.main-unit=' + ('none' if judge.get('mainunit') is None else 'from-cfg' if any(
+                e[0] == 'value' and any(k == 'unit' for k, _ in e[1].get('acc', [])) for e in mo['before']) else 'from-class'))
+            for p in mo['spec']['params']:
+                dtp = p['dt'] or p.get('gdt') or next((q['dt'] for q in mo['spec']['params'] if q['name'] == p['base']), None)
+                if p['limit']:
+                    res.count('param.dt=limit-' + p['limit'])
+                elif dtp:
+                    res.count('param.dt=' + dtp['t'] + ('-of-' + dtp['members']['t'] if dtp['t'] == 'array' else ''))
+                if dtp and '$' in json.dumps(dtp):
+                    res.count('param.unit-refers-to-main-unit.' + ('structured' if dtp['t'] in ('tuple', 'struct', 'array') or p['limit'] == 'limits' else 'scalar')
+                              + ('' if judge.get('mainunit') else '.no-main-unit'))
+                if p['needscfg']:
+                    res.count('param.needscfg.' + ('with-default' if p['default'] is not None else 'no-default')
+                              + ('.inherited' if p.get('inherit') else ''))
             if any(p.get('optional') for p in mo['cls']['params']):
                 res.count('class.has-unimplemented-optional')
             for gr in mo['spec'].get('groups', []):
@@ -1978,6 +2339,8 @@ def run(ctx):
                 start = '' if mo['gen'] == 1 else ' at the SECOND start from the same loaded configuration'
                 res.violations.append({'sig': sig,
                                        'what': f'{sig}: module {mo["name"]} (class {mo["spec"]["id"]}){start}, cfg: {text} -> '
+                                               + (f'main unit {judge["mainunit"]!r} (class or cfg; judged before shrinking), described with `$` left: '
+                                                  f'{json.dumps(unresolved_units(obs))[:400]} ' if sig == 'C10:main-unit-not-applied' else '') +
                                                f'registered={obs["registered"]} errors={obs["errors"]} '
                                                f'modprops={obs["modprops"]} judge={judge}',
                                        'case': vcase})
@@ -2027,10 +2390,27 @@ def run(ctx):
             mm = dict(model, ambiguous=sorted(model['ambiguous']))
             if ctx.model_ok and mm != out['merge']['merged']:
                 res.disagreements.append({'case': {'kind': 'node', 'case': case}, 'model': mm, 'impl': out['merge']['merged']})
+            lk = out['merge'].get('lookup')
+            if lk:
+                lmodel, ljudge = ans[mpos + 2], ans[mpos + 3]
+                res.evaluations += 1
+                res.traces += 1
+                res.count('node.files-found-by=' + '+'.join(sorted({'path' if 'path' in r else 'name' for r in lk['refs']})))
+                for d, fn in lk['loaded']:
+                    res.count('node.file-suffix=' + ('.py' if fn.endswith('.py') and not fn.endswith('_cfg.py') else
+                                                     '_cfg.py' if fn.endswith('_cfg.py') else 'none'))
+                if ctx.model_ok and lmodel['loaded'] != lk['loaded']:
+                    res.disagreements.append({'case': {'kind': 'node', 'case': case}, 'model': lmodel['loaded'], 'impl': lk['loaded']})
+                if not ljudge['ok']:
+                    res.violations.append({'sig': 'C10:cfg-lookup:wrong-file-applied',
+                                           'what': f'C10:cfg-lookup:wrong-file-applied: directories {lk["dirs"]} contain {lk["files"]}; '
+                                                   f'started with {lk["refs"]} -> parsed {lk["loaded"]}; expected {ljudge["expected"]}',
+                                           'case': {'kind': 'node', 'case': case}})
             if not judge['ok']:
                 res.violations.append({'sig': 'C10:merge:not-first-wins',
                                        'what': f'merged configuration: {out["merge"]["merged"]} from {out["merge"]["files_obs"]}',
                                        'case': {'kind': 'node', 'case': case}})
+    lookup_stream(ctx, res)
     res.notes.append(f'observation O01 (not demanded by the statement): {O01} registered modules had a configured value outside '
                      f'the limits: it is cached as start value, write_<p> is called once and refuses it (RangeError logged), the '
                      f'driver function is not reached')
@@ -2044,6 +2424,16 @@ def run(ctx):
 
 def replay(ctx, rp):
     case = rp['case']
+    if case['kind'] == 'lookup':
+        lk = run_lookup_case(case['case'])
+        bad = False
+        print('dirs   :', lk['dirs'], ' files:', lk['files'])
+        print('refs   :', lk['refs'])
+        for view, loaded in lookup_views(lk):
+            a = ctx.driver.batch(lookup_requests(dict(lk, loaded=loaded)))
+            print(f'{view:7s}:', loaded, ' model:', a[0]['loaded'], ' judge:', a[1])
+            bad = bad or not a[1]['ok']
+        return 1 if bad else 0
     if case['kind'] == 'module':
         r = run_single(case['spec'], case['name'], case['jcfg'])
         a = judge_module(ctx, r)
@@ -2078,4 +2468,8 @@ def replay(ctx, rp):
         a = ctx.driver.batch([{'p': 'C10', 'k': 'judge_merge', 'files': out['merge']['files_obs'], 'merged': out['merge']['merged']}])
         print('merge  :', out['merge']['merged'], a)
         bad = bad or any(not x.get('ok') for x in a)
+        if out['merge'].get('lookup'):
+            a = ctx.driver.batch(lookup_requests(out['merge']['lookup']))
+            print('lookup :', out['merge']['lookup'], a)
+            bad = bad or not a[1]['ok']
     return 1 if bad else 0
